@@ -96,7 +96,57 @@ def oracle_user_state(c: Case, tr: Trace) -> Optional[str]:
     return None
 
 
-ORACLES = [('tree', oracle_tree), ('user-state', oracle_user_state)]
+def oracle_containment(c: Case, tr: Trace) -> Optional[str]:
+    """'children contained in and ordered within their parent', judged on the returned tree alone: below every node the
+    children's spans are ordered (each begins at or after the end of the previous one, as far as that end is known) and lie
+    within the node's span.  A node whose content was removed has no end: its children are only checked against its begin."""
+    if not tr.tree or not tr.result.startswith('R 1'):
+        return None
+    nodes = []
+    for t in tr.tree[1:]:
+        p = t.split()
+        if p[0] != 'T':
+            continue
+        d, nid, b = int(p[1]), int(p[2]), int(p[3])
+        e = None if p[6] == '-' else int(p[6])
+        nodes.append((d, nid, b, e))
+    stack = []          # [depth, id, begin, end, running lower bound for the next child]
+    for d, nid, b, e in nodes:
+        while stack and stack[-1][0] >= d:
+            stack.pop()
+        if e is not None and e < b:
+            return f"node of rule {nid} ends at byte {e} before it begins at byte {b}"
+        if stack:
+            pd, pid, pb, pe, lo = stack[-1]
+            if b < lo:
+                return (f"child of rule {nid} [{b},{e if e is not None else '?'}) begins before byte {lo} "
+                        f"(the begin of its parent, rule {pid} [{pb},{pe if pe is not None else '?'}), or the end of its previous sibling)")
+            if pe is not None and (e if e is not None else b) > pe:
+                return f"child of rule {nid} [{b},{e if e is not None else '?'}) reaches beyond its parent, rule {pid} [{pb},{pe})"
+            stack[-1][4] = e if e is not None else b
+        stack.append([d, nid, b, e, b])
+    return None
+
+
+REREAD_KINDS = ('atR', 'notAt', 'rematch')
+
+
+def known_c12(c: Case, tr: Trace, oname: str, msg: str):
+    """F20: containment cannot hold below a rule that re-reads input (at / not_at / rematch): the property itself counts matches
+    inside a succeeding and-predicate as part of the tree, and they lie beyond what the predicate — and its ancestors — consumed.
+    Lean: C12_containment_fails_below_lookahead; C12_children_contained proves containment for every grammar without such rules,
+    so a containment failure on a grammar without them is never tolerated."""
+    if oname != 'containment':
+        return None
+    if not any(f.get('id') == 'F20' and f.get('status') == 'known' for f in common.load_known()):
+        return None
+    if any(nd.kind in REREAD_KINDS for nd in c.g.nodes.values()):
+        return ('F20', "F20 parse tree: a node matched inside a succeeding at<> / not_at<> / rematch<> is not contained in its parent's span "
+                       f"(e.g. grammar {c.g.gid}, input {c.data.hex() or '-'}: {msg})")
+    return None
+
+
+ORACLES = [('tree', oracle_tree), ('user-state', oracle_user_state), ('containment', oracle_containment)]
 
 
 def choose_sel(rng: random.Random, g: Grammar, mode: str):
@@ -220,7 +270,7 @@ def deep_inputs(rng: random.Random, g: Grammar, tier: str):
 
 def run(tier: str) -> int:
     cfg = lambda g, root, tier: [Config(root, 1, 'o', 'lf_crlf', 0, 1, 0, 1), Config(root, 1, 'o', 'lf_crlf', 0, 0, 0, 1)]
-    mk = lambda name, gen, inputs, **kw: engine.Profile(name, gen, cfg, inputs, ORACLES, compare_filter=keep_line, **kw)
+    mk = lambda name, gen, inputs, **kw: engine.Profile(name, gen, cfg, inputs, ORACLES, compare_filter=keep_line, known=known_c12, **kw)
 
     def sysgen(rng, tier):
         return corpus.systematic(rng, 'ts', lambda k, f: f != 'state', True, max_grammars=(22 if tier == 'quick' else 140),
